@@ -16,7 +16,7 @@
 // no `TimeDelta / i32` and no `*Assign` impl in the crate.
 // `TimeDelta / TimeDelta` returns an `i32` count, which has no NaT; the implementation panics on purpose with
 // "not support div TimeDelta when one of them is nat". It is neither addition, subtraction, negation nor scaling
-// and is left outside the absorption law (see props/c16.py).
+// and is left outside the absorption law (no harness; to be listed under `outside` in props/c16.py).
 use tea_time::{Time, TimeDelta};
 
 /// symbolic chrono::Duration, |secs| <= 2^40, every sub-second part
